@@ -217,4 +217,20 @@ func init() {
 			"not decided: re-escaping for the host syntax (EscapeAttrVal, A-dep), the media-type selection from the type attribute beyond passing parse.Mediatype's results, CSS url() data URIs, position arithmetic inside UpdateErrorPosition",
 		},
 	})
+	registerProp(&PropSpec{
+		ID:       "C06",
+		Patterns: []string{"./xml"},
+		Units: []string{
+			modPath + "/xml.(*TokenBuffer).read", modPath + "/xml.NewTokenBuffer", modPath + "/xml.(*TokenBuffer).Peek", modPath + "/xml.(*TokenBuffer).Shift",
+		},
+		Custom:  []string{"partial"},
+		Partial: []string{modPath + "/xml.(*Minifier).Minify"},
+		Notes: []string{
+			"xml.TokenBuffer under full contract as a data structure with an abstract view (the not-yet-shifted tokens in lexer order): Peek(i) consumes nothing (every buffered token is preserved, in place or across reallocation), performs exactly one read() per newly buffered token, returns the i-th token of the view or the final error token, never indexes out of range; Shift hands out the first token of the view; all loops with invariants and variants",
+			"per-iteration (two-state) contract of the whitespace state machine of the real xml.(*Minifier).Minify: KeepWhitespace => omitSpace is cleared by start and end tags and not set again by attribute/close/PI/DOCTYPE tokens; a CDATA section sets omitSpace only when it ends in whitespace (words are not joined); a text token's written bytes are the entity-replaced text minus at most one leading byte (only if omitSpace was set) and at most one trailing byte; with KeepWhitespace the trailing space before a tag is kept (site assertion); end of input obligations of C14",
+			"the contract pins the design of the state machine (where omitSpace is reset); an equivalent redesign would need new contracts",
+			"A-dep: the xml lexer is an abstract token stream; ReplaceMultipleWhitespaceAndEntities keeps a non-empty text non-empty; EscapeCDATAVal/EscapeAttrVal/ReplaceEntities are not verified",
+			"not decided: infoset equality as a whole, entity decoding, attribute-value normalisation, the look-ahead rule for dropping a trailing space in full, empty-element collapsing, CDATA-to-text conversion; several pre-existing deviations reported by the seeding agents (e.g. `<a><![CDATA[x]]> y</a>` -> `<a>xy</a>`) lie in these undecided parts",
+		},
+	})
 }
